@@ -83,8 +83,10 @@ def run_impl(sources, kind="hooked", opts="", timeout=3600, per_case=20):
                 open(path, "w").write(src)
                 o = opts[i] if isinstance(opts, list) else opts
                 fc.write("run %s %s\n" % (path, o))
-        rc, oc = vlib.sh([drv, os.path.join(tmp, "cases.txt"), str(per_case)], timeout=timeout)
+        errp = os.path.join(tmp, "stderr.txt")
+        rc, oc = vlib.sh("%s %s %d 2> %s" % (drv, os.path.join(tmp, "cases.txt"), per_case, errp), timeout=timeout)
         lc = oc.splitlines()
+        errtxt = open(errp, errors="replace").read() if os.path.exists(errp) else ""
         if len(lc) != len(sources):
             raise RuntimeError("drv_prog produced %d/%d lines: %s" % (len(lc), len(sources), oc[-400:]))
         res = []
@@ -93,6 +95,11 @@ def run_impl(sources, kind="hooked", opts="", timeout=3600, per_case=20):
                 res.append(json.loads(c))
             except Exception:
                 res.append({"status": "unparsable", "raw": c[:500]})
+        if errtxt.strip():
+            # sanitizer reports of crashed children; attach to the cases that did not end normally
+            for r in res:
+                if r.get("status") in ("signal", "exit", "unparsable"):
+                    r["sanitizer_log"] = errtxt[-6000:]
         return res
     finally:
         shutil.rmtree(tmp, ignore_errors=True)
